@@ -21,9 +21,10 @@ const (
 	Drop
 	Err
 	Block // wait on the harness gate, then pass
+	ErrEv // return the event AND an error (the error must still stop the traversal)
 )
 
-var scriptNames = [...]string{"pass", "replace", "drop", "err", "block"}
+var scriptNames = [...]string{"pass", "replace", "drop", "err", "block", "err+event"}
 
 func (s Script) String() string { return scriptNames[s] }
 
@@ -138,6 +139,8 @@ func (n *Node) Process(ctx context.Context, e *el.Event) (*el.Event, error) {
 	case Drop:
 	case Err:
 		err = n.TheErr
+	case ErrEv:
+		out, err = e, n.TheErr
 	case Block:
 		n.Gate.Wait()
 		out = e
